@@ -17,7 +17,7 @@ import json
 import os
 import subprocess
 import sys
-from typing import Any  # noqa: F401  (used by generated class source)
+from typing import Any, NamedTuple  # noqa: F401  (used by generated class source)
 
 from .. import boot  # noqa: F401
 from pyoak.node import NODE_REGISTRY, ASTNode  # noqa: F401
@@ -39,7 +39,7 @@ RULE = (
 )
 ASSUMPTIONS = [
     "A1: BLAKE2b with an 8-byte digest has no accidental collision among the <= 10^6 digest inputs of a run",
-    "A3: floats, (1,) vs (True,), same-named enums from different modules are not in the alphabet (deep/shallow type reading unspecified)",
+    "A3: floats, (1,) vs (True,), (Pos(1, 2),) vs ((1, 2),), same-named enums from different modules are not judged (deep/shallow type reading of values nested in a container is unspecified; the type of the property value itself always counts)",
 ]
 N = {"quick": 4, "thorough": 5}
 NV = {"quick": 2, "thorough": 3}
@@ -58,6 +58,18 @@ class AFl(enum.IntFlag):   # flag values without a member name exist: AFl(0), AF
     R = 1
     W = 2
 
+
+class Pos(NamedTuple):   # tuple subclasses: equal to the plain tuple of their elements, yet values of another type
+    line: int
+    col: int
+
+
+class Size(NamedTuple):
+    width: int
+    height: int
+
+
+TUPLE_KINDS = {"tuple": tuple, "Pos": Pos, "Size": Size}
 
 _SRC = '''
 @dataclass(frozen=True)
@@ -148,7 +160,10 @@ VALUES = [_FS_A, _FS_B, frozenset([(1, 2), (2, 1)]), frozenset([(2, 1), (1, 2)])
           # the same sets one and two tuple levels down (a set is an unordered value wherever it sits)
           (_FS_A,), (_FS_B,), ((_FS_A,),), ((_FS_B,),), (1, (frozenset([8, 16, 0]),)), (1, (frozenset([16, 8, 0]),)),
           ((frozenset(["a", "b", "c"]),),), ((frozenset(["c", "b", "a"]),),),
-          AFl(0), AFl(8), AFl(16), AFl.R, AFl.R | AFl.W, (AFl(8),), (AFl(16),)]
+          AFl(0), AFl(8), AFl(16), AFl.R, AFl.R | AFl.W, (AFl(8),), (AFl(16),),
+          # named tuples: as the value of a property their class is the value's type; nested in a container they fall under A3
+          Pos(1, 2), Size(1, 2), Pos(2, 1), Pos(_FS_A, 2), Pos(_FS_B, 2), (Pos(1, 2),), (Size(1, 2),), ((1, 2),),
+          frozenset([Pos(1, 2)]), frozenset([Size(1, 2), 3])]
 
 
 def make_universes(order: int):
@@ -202,8 +217,10 @@ def canon(x, shallow=False, inside=False) -> str:
     shallow=True blurs the element types of numbers *inside* tuple / frozenset values (A3: whether (1, True) and (1, 1)
     are 'equal values of equal types' is left open; the top-level type always counts)."""
     if isinstance(x, tuple):
-        if shallow and len(x) == 2 and x[0] in ("tuple", "frozenset") and isinstance(x[1], (tuple, frozenset)):
-            return "(" + x[0] + "," + canon(x[1], True, True) + ")"
+        if shallow and len(x) == 2 and isinstance(x[0], str) and (x[0] in TUPLE_KINDS or x[0] == "frozenset") \
+                and isinstance(x[1], (tuple, frozenset)):
+            # the class of a tuple nested inside a container value is as open as the type of a nested number (A3)
+            return "(" + ("tuple" if inside and x[0] in TUPLE_KINDS else x[0]) + "," + canon(x[1], True, True) + ")"
         if shallow and inside and len(x) == 2 and x[0] in ("int", "bool", "float") and isinstance(x[1], (int, float)):
             return f"(num,{int(x[1]) if x[1] == int(x[1]) else x[1]!r})"
         return "(" + ",".join(canon(v, shallow, inside) for v in x) + ")"
@@ -626,6 +643,8 @@ def freeze(x):
         return {"$enum": x.name}
     if isinstance(x, frozenset):
         return {"$fs": [freeze(v) for v in x]}
+    if isinstance(x, tuple) and type(x) is not tuple:
+        return {"$nt": type(x).__name__, "v": [freeze(v) for v in x]}
     if isinstance(x, tuple):
         return {"$t": [freeze(v) for v in x]}
     if isinstance(x, list):
@@ -639,6 +658,8 @@ def revive(x):
             return AFl(x["$flag"])
         if "$enum" in x:
             return AE[x["$enum"]]
+        if "$nt" in x:
+            return TUPLE_KINDS[x["$nt"]](*(revive(v) for v in x["v"]))
         if "$fs" in x:
             return frozenset(revive(v) for v in x["$fs"])
         if "$t" in x:
